@@ -12,7 +12,7 @@ ID = "C04"
 LEVEL = "model_checking"
 RULE = ("trees {group of 2, group of 3 with a hard link, two groups, two --isolate roots with two files each} x target file f in {retained member, dropped member, second file of a retained / dropped isolate root} x "
         "mutation in {rewrite same length, rewrite other length, append, truncate, delete, delete+recreate same bytes, "
-        "delete+recreate other bytes, replace by directory, by dangling symlink, by symlink to a fresh file, touch} x "
+        "delete+recreate other bytes, replace by directory, by dangling symlink, by symlink to a fresh file, by symlink to an old file of the same length, touch} x "
         "position: the external mutator is interleaved at EVERY event k (file-system read calls and clock reads) of the "
         "recorded `group -t 1` run from the first access to f until process exit (quick: one position per phase), plus "
         "'between group and dedupe' (the pair tree also with both commands running in time zones UTC+9, UTC-8, UTC+5:30, and with the dedupe command running in another zone than `group`: +9 -> 0, 0 -> -8, -8 -> +9, +5:30 -> +4:30); then each dedupe op {remove, link, link --soft, dedupe, move} and {remove, link, move} x {-n 1, --rf-over 1, --priority newest, --no-lock, --keep-name <matches nothing>} (quick: remove, link, remove -n 1, link --priority newest) "
@@ -39,7 +39,7 @@ TREE_OPTS = {
 TREES["isolate"] = [{"p": "r1/a/f1", "k": "file", "c": ["base", 3000, 1]}, {"p": "r1/b/f2", "k": "file", "c": ["base", 3000, 1]},
                     {"p": "r2/c/f3", "k": "file", "c": ["base", 3000, 1]}, {"p": "r2/c/f4", "k": "file", "c": ["base", 3000, 1]}]
 MUTATIONS = ["rewrite_same_len", "rewrite_other_len", "append", "truncate", "delete", "recreate_same", "recreate_other",
-             "to_directory", "to_dangling_symlink", "to_symlink_fresh", "touch"]
+             "to_directory", "to_dangling_symlink", "to_symlink_fresh", "to_symlink_old", "touch"]
 OPS = ["remove", "link", "softlink", "dedupe", "move"]
 # options of the dedupe command that must not switch the staleness guard off (op|option set)
 OPTSETS = {"": [], "n1": ["-n", "1"], "rfover1": ["--rf-over", "1"], "newest": ["--priority", "newest"],
@@ -121,6 +121,17 @@ def mutate(path, m, scratch):
         with open(fresh, "wb") as f:
             f.write(b"F" * n)
         os.symlink(fresh, p)
+    elif m == "to_symlink_old":
+        # replaced by a symlink to an OLD file of the same length and other content that lies outside the groups
+        # (the path is no regular file any more; the link itself is new, what it points to is not)
+        n = os.path.getsize(p)
+        old = os.path.join(C.b(scratch.tree), b"old_target")
+        if not os.path.exists(old):
+            with open(old, "wb") as f:
+                f.write(b"O" * n)
+            os.utime(old, (1_000_000_000, 1_000_000_000))
+        os.unlink(p)
+        os.symlink(old, p)
     elif m == "touch":
         os.utime(p, None)
     time.sleep(0.025)
